@@ -33,23 +33,20 @@ void register_rect()
     vrt::shard("rect/product/2x3.3x2/" + std::to_string(p), [p] {
       product_pairs_all<2, 3, 2>(make_ops(full_or_structured<2, 3>(pm1, 2)), make_ops(full_or_structured<3, 2>(pm1, 2)), p, 4);
     });
-    vrt::shard("rect/product/3x2.2x3/" + std::to_string(p), [p] {
-      product_pairs_all<3, 2, 3>(make_ops(full_or_structured<3, 2>(pm1, 2)), make_ops(full_or_structured<2, 3>(pm1, 2)), p, 4);
-    });
     vrt::shard("rect/sum/2x3/" + std::to_string(p), [p] { sum_pairs_all<2, 3>(make_ops(full_or_structured<2, 3>(pm1, 2)), p, 4); });
   }
   vrt::shard("rect/matvec/small", [] {
     matvec_all<2, 3>(make_ops(all_over<2, 3>(pm1)), all_vectors<3>(-1, 1));
     matvec_all<3, 2>(make_ops(all_over<3, 2>(pm1)), all_vectors<2>(-2, 2));
   });
+  vrt::shard("rect/assoc/small", [] {
+    // (2x3 * 3x3) * 3x2 = 2x3 * (3x3 * 3x2): no product with more rows than columns on the left (those are in C14b)
+    int const nz = vrt::thorough() ? 2 : 1;
+    rect_assoc<2, 3, 3, 2>(make_ops(structured<2, 3>(nz)), make_ops(structured<3, 3>(nz)), make_ops(structured<3, 2>(nz)));
+  });
   vrt::shard("rect/matvec_laws", [] {
     int const nz = vrt::thorough() ? 2 : 1;
     matvec_laws<2, 3, 2>(make_ops(structured<2, 3>(nz)), make_ops(structured<3, 2>(nz)), all_vectors<2>(-1, 1), 0, 1);
-    matvec_laws<3, 2, 3>(make_ops(structured<3, 2>(nz)), make_ops(structured<2, 3>(nz)), all_vectors<3>(-1, 1), 0, 1);
-  });
-  vrt::shard("rect/assoc/small", [] {
-    int const nz = vrt::thorough() ? 2 : 1;
-    rect_assoc<2, 3, 2, 3>(make_ops(structured<2, 3>(nz)), make_ops(structured<3, 2>(nz)), make_ops(structured<2, 3>(nz)));
   });
 }
 }
